@@ -11,7 +11,9 @@
    [complete_in rs p k] k = number of records of [file_of rs] lying wholly inside its prefix p *)
 From Coq Require Import ZArith List Bool.
 From PTK Require Import Lib.Sx Lib.Py Model.C13_Utf8 Model.C13_HistFile Model.C13_Threaded
-  Proofs.C13_Utf8Facts Proofs.C13_HistFileFacts Proofs.C13_ThreadedFacts.
+  Model.C13_ThreadedF2 Model.C13_ThreadedLate
+  Proofs.C13_Utf8Facts Proofs.C13_HistFileFacts Proofs.C13_ThreadedFacts
+  Proofs.C13_ThreadedF2Facts Proofs.C13_ThreadedLateFacts Proofs.C13_ComposeFacts.
 Import ListNotations.
 Open Scope Z_scope.
 
@@ -29,6 +31,31 @@ Theorem C13_utf8_dec_enc : forall s rest,
   forallb is_scalar s = true -> utf8_dec (utf8_enc_raw s ++ rest) = s ++ utf8_dec rest.
 Proof. exact dec_enc. Qed.
 Print Assumptions C13_utf8_dec_enc.
+
+(* A multi-byte sequence cut after 1..3 bytes (torn write) and followed by an
+   ASCII byte b - in a history file the "\n" of the next record - decodes to
+   ONE U+FFFD and decoding resumes AT b (b is not consumed); alone at the end
+   of the data it decodes to one U+FFFD. *)
+Theorem C13_utf8_torn_tail : forall c q q' b rest,
+  is_scalar c = true -> utf8_enc_cp c = q ++ q' -> q <> [] -> q' <> [] -> b < 128 ->
+  utf8_dec (q ++ b :: rest) = REPL :: utf8_dec (b :: rest) /\ utf8_dec q = [REPL].
+Proof. exact torn_tail_dec. Qed.
+Print Assumptions C13_utf8_torn_tail.
+
+Theorem C13_utf8_torn_line : forall s c q q' rest,
+  forallb is_scalar s = true -> is_scalar c = true ->
+  utf8_enc_cp c = q ++ q' -> q <> [] -> q' <> [] ->
+  utf8_dec (utf8_enc_raw s ++ q ++ 10 :: rest) = s ++ REPL :: 10 :: utf8_dec rest /\
+  utf8_dec (utf8_enc_raw s ++ q) = s ++ [REPL].
+Proof. exact torn_line_dec. Qed.
+Print Assumptions C13_utf8_torn_line.
+
+(* The decoder is total by construction (a Gallina function); moreover it
+   never yields more characters than bytes, and something for something. *)
+Theorem C13_utf8_dec_total : forall bs,
+  (length (utf8_dec bs) <= length bs)%nat /\ (bs <> [] -> utf8_dec bs <> []).
+Proof. exact dec_total. Qed.
+Print Assumptions C13_utf8_dec_total.
 
 (* Round trip: any sequence of entries is read back exactly, newest first. *)
 Theorem C13_roundtrip : forall rs,
@@ -145,6 +172,65 @@ Theorem C13_threaded_cache_refuted :
        t_ls st = rev (t_store st)).
 Proof. exact cache_in_window_refuted. Qed.
 Print Assumptions C13_threaded_cache_refuted.
+
+(* FileHistory under ThreadedHistory: run the same transition system over the
+   file's BYTES ([cstep]: the loader's snapshot is load_bytes of the file,
+   store_string appends store_bytes; [ts_of] = any LF-free timestamps).  For
+   every covered schedule the file stays the concatenation of the records of
+   the stored strings, the cache once loaded is the inline load of the file,
+   and a finished threaded load() has yielded exactly what FileHistory's loader
+   returns for the file with the records present when it started. *)
+Theorem C13_threaded_over_file : forall (ts_of : str -> bytes),
+  (forall s, nolf (ts_of s)) ->
+  forall rs0 sched,
+  Forall valid_rec rs0 -> Forall label_valid sched ->
+  ok_sched (tinit (map snd rs0)) sched = true ->
+  let sf := crun ts_of (tinit (map snd rs0), file_of rs0) sched in
+  (exists rs, Forall valid_rec rs /\ snd sf = file_of rs /\ map snd rs = t_store (fst sf) /\
+              load_bytes (snd sf) = rev (t_store (fst sf))) /\
+  (t_loaded (fst sf) = true -> t_fly (fst sf) = [] -> t_ls (fst sf) = load_bytes (snd sf)) /\
+  forall c, In c (t_cons (fst sf)) -> c_fin c = true ->
+    forall rs, Forall valid_rec rs -> map snd rs = c_start c -> c_out c = load_bytes (file_of rs).
+Proof. exact threaded_over_file. Qed.
+Print Assumptions C13_threaded_over_file.
+
+(* The two statements of the consumer's locked read, [CItems] (new_items) and
+   [CDone] (done = _loaded), done back to back are the model's [CRead]: in
+   /repo they are one lock region, so nothing can come between them ... *)
+Theorem C13_read_is_items_then_done : forall st i,
+  tstep3 (tstep3 st (CItems i)) (CDone i) = tstep st (CRead i).
+Proof. exact items_then_done_is_read. Qed.
+Print Assumptions C13_read_is_items_then_done.
+
+(* ... and they must be: if the flag is read later (after the lock is released,
+   seeded change C13-3) loader steps fit in between and a load() can finish
+   with only part of the entries ([late_sched]: yields c of a,b,c). *)
+Theorem C13_late_done_refuted :
+  ~ (forall S0 sched c,
+       In c (t_cons (trun3 (tinit S0) sched)) -> c_fin c = true -> c_out c = rev (c_start c)).
+Proof. exact late_done_refuted. Qed.
+Print Assumptions C13_late_done_refuted.
+
+(* PROPOSED repair of C13-F2 (fixes/C13-append-between-reset-and-read.patch,
+   modelled in Model/C13_ThreadedF2.v, NOT the code of /repo): append_string is
+   one lock region that only stores between the first load() and the loader's
+   reading of the storage, and that reading is atomic against it.  Then
+   exactly-once holds for EVERY schedule - no [ok_sched], no window. *)
+Theorem C13_threaded_exactly_once_f2 : forall S0 sched c,
+  let st := trun2 (tinit S0) sched in
+  In c (t_cons st) ->
+  (c_fin c = true -> c_out c = rev (c_start c)) /\
+  (c_fin c = false -> pre (c_out c) (rev (c_start c))) /\
+  (t_loaded st = true -> t_ls st = rev (t_store st)).
+Proof. exact threaded_exactly_once_f2. Qed.
+Print Assumptions C13_threaded_exactly_once_f2.
+
+Theorem C13_threaded_window_fixed_f2 :
+  let st := trun2 (tinit [sa; sb]) window_sched2 in
+  t_store st = [sa; sb; snew] /\ t_ls st = [snew; sb; sa] /\
+  map c_out (t_cons st) = [[snew; sb; sa]; [snew; sb; sa]] /\ map c_fin (t_cons st) = [true; true].
+Proof. exact window_fixed_f2. Qed.
+Print Assumptions C13_threaded_window_fixed_f2.
 
 (* Non-vacuity. *)
 Example C13_valid_rec_somewhere :
